@@ -191,7 +191,7 @@ def distinct_interval_tier(S, name):
     slivers is outside this precondition and is a recorded known finding.  The flag is a `requires`: it is
     consumed by the R-ERASE loop rule (pyvc/loops.py) as the no-duplicates side condition."""
     t = wf_interval_tier(S, name)
-    t.attrs["_entries"].term.requires_distinct = True
+    S.mark_distinct(S.attr(t, "_entries"))
     return t
 
 
@@ -199,8 +199,8 @@ contract(
     IT + ".deleteEntry",
     serves=["C11", "C13", "C07"],
     inputs=lambda S, cfg: dict(self=distinct_interval_tier(S, "self"),
-                               entry=S.I.make_nt(S.I.get_function("praatio.utilities.constants.Interval"),
-                                                 [S.real("entry.start"), S.real("entry.end"), S.str("entry.label")], {})),
+                               entry=S.nt("praatio.utilities.constants.Interval",
+                                          [S.real("entry.start"), S.real("entry.end"), S.str("entry.label")])),
     spec="spec.tiers.TextgridTier_deleteEntry",
 )
 
@@ -208,8 +208,8 @@ INSERT_CFG = {"collisionMode": ["replace", "merge", "error", "bogus"], "collisio
 
 
 def new_interval(S, name="entry"):
-    return S.I.make_nt(S.I.get_function("praatio.utilities.constants.Interval"),
-                       [S.real(name + ".start"), S.real(name + ".end"), S.str(name + ".label")], {})
+    return S.nt("praatio.utilities.constants.Interval",
+                [S.real(name + ".start"), S.real(name + ".end"), S.str(name + ".label")])
 
 
 contract(
@@ -227,9 +227,18 @@ contract(
 
 def distinct_point_tier(S, name):
     t = wf_point_tier(S, name)
-    t.attrs["_entries"].term.requires_distinct = True
+    S.mark_distinct(S.attr(t, "_entries"))
     return t
 
+
+contract(
+    PT + ".deleteEntry",
+    serves=["C11", "C13", "C07"],
+    inputs=lambda S, cfg: dict(self=distinct_point_tier(S, "self"),
+                               entry=S.nt("praatio.utilities.constants.Point",
+                                          [S.real("entry.time"), S.str("entry.label")])),
+    spec="spec.tiers.TextgridTier_deleteEntry",
+)
 
 REGION = ["0 <= start", "self.minTimestamp <= start", "end <= self.maxTimestamp"]
 
@@ -276,7 +285,7 @@ def strict_point_tier(S, name):
     ents = S.list(name + ".entries", "Point",
                   all="lo <= e.time and e.time <= hi and strip(e.label) == e.label",
                   pair="a.time < b.time and not (a == b)", env=env)
-    ents.term.requires_distinct = True
+    S.mark_distinct(ents)
     S.assume("0 <= lo and lo <= hi and hi <= 1e15", env)
     return S.obj(PT, name=S.str(name + ".name"), _entries=ents, minTimestamp=lo, maxTimestamp=hi,
                  errorReporter=S.I.get_function("praatio.utilities.utils.reportWarning"))
@@ -287,8 +296,8 @@ contract(
     serves=["C11", "C05", "C13", "C10"],
     configs=INSERT_CFG,
     inputs=lambda S, cfg: dict(self=strict_point_tier(S, "self"),
-                               entry=S.I.make_nt(S.I.get_function("praatio.utilities.constants.Point"),
-                                                 [S.real("entry.time"), S.str("entry.label")], {}),
+                               entry=S.nt("praatio.utilities.constants.Point",
+                                          [S.real("entry.time"), S.str("entry.label")]),
                                collisionMode=cfg["collisionMode"],
                                collisionReportingMode=cfg["collisionReportingMode"]),
     requires=["0 <= entry.time", "entry.time <= 1e15"],
